@@ -10,18 +10,21 @@ Diag(cls, what, detail) ==
 Has(e, f) == f \in DOMAIN e
 MinOf(S) == CHOOSE m \in S : \A o \in S : m <= o
 
-(* ---- op "yuv_sweep": 4x1 pictures y = ys, cb = [cb,cb], cr = [cr,cr] for all (cb,cr) ---- *)
+(* ---- op "yuv_sweep": 4x1 pictures y = ys, cb = [cb, 255-cb], cr = [cr, 255-cr] for all (cb,cr): pixels 1,2 use    *)
+(* ---- the first chroma pair, pixels 3,4 the second; over all (cb,cr) every pixel position meets every chroma pair ---- *)
+SwCb(i, k) == IF k <= 2 THEN i \div 256 ELSE 255 - (i \div 256)
+SwCr(i, k) == IF k <= 2 THEN i % 256 ELSE 255 - (i % 256)
 SweepOk(e) ==
     IF e.ret # "ok" THEN Diag("IMPL", "yuv-outcome", [ret |-> e.ret, ys |-> e.ys])
     ELSE IF Len(e.px) # 262144 THEN Diag("HARNESS", "sweep-length", Len(e.px))
     ELSE LET bad == {i \in 0..65535 : \E k \in 1..4 :
-                         e.px[4 * i + k] # Pixel(e.ys[k], i \div 256, i % 256)}
+                         e.px[4 * i + k] # Pixel(e.ys[k], SwCb(i, k), SwCr(i, k))}
          IN  IF bad = {} THEN TRUE ELSE
                 LET i == MinOf(bad)
-                    k == MinOf({k \in 1..4 : e.px[4 * i + k] # Pixel(e.ys[k], i \div 256, i % 256)})
+                    k == MinOf({k \in 1..4 : e.px[4 * i + k] # Pixel(e.ys[k], SwCb(i, k), SwCr(i, k))})
                 IN Diag("IMPL", "colour",
-                        [y |-> e.ys[k], cb |-> i \div 256, cr |-> i % 256, got |-> e.px[4 * i + k],
-                         expected |-> Pixel(e.ys[k], i \div 256, i % 256), count |-> Cardinality(bad)])
+                        [y |-> e.ys[k], cb |-> SwCb(i, k), cr |-> SwCr(i, k), pixel |-> k, got |-> e.px[4 * i + k],
+                         expected |-> Pixel(e.ys[k], SwCb(i, k), SwCr(i, k)), count |-> Cardinality(bad)])
 
 (* ---- op "yuv": one picture of any size ---- *)
 PictureOk(e) ==
